@@ -34,6 +34,10 @@ pub struct Case {
     /// process's working directory, which the check parks in a directory of its own)
     #[serde(default)]
     rel_target: bool,
+    /// Some((entry pick, bit pick, in the central CRC field instead of the data)): flip one bit of a
+    /// non-empty file entry before extraction
+    #[serde(default)]
+    damage: Option<(u16, u32, bool)>,
 }
 
 /// The worker's working directory is parked (once) in /var/tmp/zv-c07-cwd-<pid>/a/b so that relative
@@ -130,7 +134,19 @@ fn check(c: &Case, info: &mut Info) -> Result<(), String> {
             spec.central_order = Some(o);
         }
     }
-    let b = build::build(&spec).map_err(|e| format!("harness: {e}"))?;
+    let mut b = build::build(&spec).map_err(|e| format!("harness: {e}"))?;
+    let mut damaged: Option<usize> = None;
+    if let Some((ep, bp, in_crc)) = c.damage {
+        let cands: Vec<usize> = (0..spec.entries.len()).filter(|&i| b.entries[i].csize > 0).collect();
+        if !cands.is_empty() {
+            let i = cands[(ep as usize * cands.len()) >> 16];
+            let be = &b.entries[i];
+            let (start, len) = if in_crc { (be.central_header_start + 16, 4u64) } else { (be.data_start, be.csize) };
+            let bit = (bp as u64) % (len * 8);
+            b.bytes[(start + bit / 8) as usize] ^= 1 << (bit % 8);
+            damaged = Some(i);
+        }
+    }
     // ---- sandbox: <base>/canary (absolute-path bait), <base>/l1/.../l12/target
     let base = PathBuf::from(format!("/var/tmp/zv-c07-{}-{}", std::process::id(), SEQ.fetch_add(1, std::sync::atomic::Ordering::Relaxed)));
     rm_rf(&base);
@@ -168,8 +184,16 @@ fn check(c: &Case, info: &mut Info) -> Result<(), String> {
             let stray = snapshot(&cwd_root);
             if stray.len() != 3 {
                 let names: Vec<_> = stray.keys().filter(|p| !matches!(p.to_str(), Some("") | Some("a") | Some("a/b"))).collect();
-                rm_rf(&cwd_root);
-                let _ = std::fs::create_dir_all(parked_cwd());
+                // remove the strays but keep the parked directory itself (other threads are using it)
+                for (dir, keep) in [(cwd_root.clone(), Some("a")), (cwd_root.join("a"), Some("b")), (cwd_root.join("a/b"), None)] {
+                    if let Ok(rd) = std::fs::read_dir(&dir) {
+                        for e in rd.flatten() {
+                            if Some(e.file_name().to_string_lossy().as_ref()) != keep {
+                                rm_rf(&e.path());
+                            }
+                        }
+                    }
+                }
                 return Err(format!("extraction into the relative target {given:?} created {names:?} outside the target (below the working directory)"));
             }
         }
@@ -210,6 +234,41 @@ fn check(c: &Case, info: &mut Info) -> Result<(), String> {
         if !c.safe {
             return Ok(()); // conflicting / odd but safe names: only confinement is claimed
         }
+        // (2b) one bit of an entry's data (or of its declared CRC) was flipped: extraction either fails, or
+        // everything it wrote is still the original content (a flip inside a compressed stream may be
+        // harmless) - it never reports success for altered data. The streaming extractor reads the local
+        // header's CRC, so damage to the central CRC field alone does not concern it.
+        if let Some(di) = damaged {
+            info.label("one-bit-damaged");
+            if res.is_ok() {
+                for (i, (e, sp)) in c.entries.iter().zip(spec.entries.iter()).enumerate() {
+                    if e.dir {
+                        continue;
+                    }
+                    let name = String::from_utf8_lossy(&sp.name).into_owned();
+                    let rel = trel.join(&name);
+                    let want = crate::util::hash_of(&e.content.expand()[..]);
+                    let want_link = crate::util::hash_of(String::from_utf8_lossy(&e.content.expand()).as_bytes());
+                    match after.get(&rel) {
+                        Some(('f', _, h)) if *h == want => {}
+                        Some(('l', _, h)) if *h == want_link => {}
+                        Some((k, _, _)) => {
+                            if i == di && !(c.stream && c.damage.map(|d| d.2).unwrap_or(false)) {
+                                return Err(format!("entry {name:?} had one bit flipped in its {}, extract() returned Ok and wrote a {} with content that differs from the original ({} extractor)", if c.damage.unwrap().2 { "declared CRC" } else { "data" }, if *k == 'l' { "symbolic link" } else { "file" }, if c.stream { "streaming" } else { "seekable" }));
+                            }
+                        }
+                        None => {}
+                    }
+                }
+                if c.damage.unwrap().2 && !c.stream {
+                    return Err(format!("entry {:?} declares a CRC-32 with one bit flipped, yet extract() returned Ok (seekable extractor)", String::from_utf8_lossy(&spec.entries[di].name)));
+                }
+                if !c.damage.unwrap().2 && spec.entries[di].method == 0 {
+                    return Err(format!("stored entry {:?} had one data bit flipped, yet extract() returned Ok ({} extractor)", String::from_utf8_lossy(&spec.entries[di].name), if c.stream { "streaming" } else { "seekable" }));
+                }
+            }
+            return Ok(());
+        }
         // (3) safe and mutually consistent names: success and an exact tree
         res.map_err(|e| format!("extract() of an archive with safe, consistent names failed: {e}"))?;
         let mut want: BTreeMap<PathBuf, (char, Option<u32>, u64)> = BTreeMap::new();
@@ -229,6 +288,10 @@ fn check(c: &Case, info: &mut Info) -> Result<(), String> {
             let mode = model_mode(s.made_by, s.external_attr).map(|m| m & 0o777);
             if e.dir {
                 want.insert(rel, ('d', mode, 0));
+            } else if e.symlink_typed {
+                // extracted as a regular file holding the link text (what the code does), or - equally
+                // faithful - as a symbolic link with that target: kind 's' accepts both
+                want.insert(rel, ('s', None, crate::util::hash_of(&e.content.expand()[..])));
             } else {
                 want.insert(rel, ('f', mode, crate::util::hash_of(&e.content.expand()[..])));
             }
@@ -238,6 +301,13 @@ fn check(c: &Case, info: &mut Info) -> Result<(), String> {
             match got.get(p) {
                 None => return Err(format!("{:?} is missing after extraction ({} extractor)", p.strip_prefix(&trel).unwrap_or(p), if c.stream { "streaming" } else { "seekable" })),
                 Some((gk, gm, gh)) => {
+                    if *k == 's' {
+                        let ok = (*gk == 'f' && gh == h) || *gk == 'l';
+                        if !ok {
+                            return Err(format!("symlink-typed entry {:?} was extracted as kind {gk} with different content", p.strip_prefix(&trel).unwrap_or(p)));
+                        }
+                        continue;
+                    }
                     if gk != k {
                         return Err(format!("{:?} has kind {gk}, expected {k}", p.strip_prefix(&trel).unwrap_or(p)));
                     }
@@ -317,7 +387,10 @@ fn safe_case() -> BoxedStrategy<Vec<Ent>> {
                 // directories (explicit) must stay traversable/writable for the owner so that
                 // later entries can be created below them (consistency of the archive)
                 let mode = if dir { mode | 0o700 } else { mode };
-                out.push(Ent { name, dir, symlink_typed: false, mode, content, method });
+                // some file entries are typed as symbolic links (their content is the link text)
+                let sym = !dir && mode % 8 == 5;
+                let content = if sym { Content::Bytes(format!("zv_link_target_{}", mode).into_bytes()) } else { content };
+                out.push(Ent { name, dir, symlink_typed: sym, mode, content, method: if sym { 0 } else { method } });
             }
             // explicit directory entries whose permissions would block children must come after
             // their children? extraction applies the mode at once, so keep dirs >= 0o700 (done)
@@ -346,7 +419,7 @@ fn hostile_name(base_canary: String) -> BoxedStrategy<String> {
 }
 
 pub fn run(ctx: &mut Ctx) {
-    ctx.rule("archives built by the independent builder with names from a SAFE pool (unique nested paths, explicit dirs >= 0o700, any permission bits on files, no conflicts) or a HOSTILE pool ('..' chains up to 8 deep, absolute paths into a disposable canary directory, NUL, backslash chains, mixed '\\' and '/' separators in front of a '..' chain, './..' prefixes, duplicates, file/dir conflicts, symlink-typed entries, deep nesting), central directory order shuffled against the physical order in a third of the cases; explicit directory entries may follow entries below them; a quarter of the cases pass a relative target path with leading '..' components; extracted with ZipArchive::extract and ZipStreamReader::extract into a 12-level nested sandbox under /var/tmp. Oracle: recursive snapshot (type, mode, content hash) of everything outside the target is unchanged; an archive with an unsafe name (C06 string model) returns Err; an all-safe archive returns Ok and the tree equals the model exactly (implied parents, contents, mode & 0o777 for every entry that records one). Non-trivial = has a hostile name, or >=3 safe entries with nesting.");
+    ctx.rule("archives built by the independent builder with names from a SAFE pool (unique nested paths, explicit dirs >= 0o700, any permission bits on files, no conflicts) or a HOSTILE pool ('..' chains up to 8 deep, absolute paths into a disposable canary directory, NUL, backslash chains, mixed '\\' and '/' separators in front of a '..' chain, './..' prefixes, duplicates, file/dir conflicts, symlink-typed entries, deep nesting), central directory order shuffled against the physical order in a third of the cases; explicit directory entries may follow entries below them; a quarter of the cases pass a relative target path with leading '..' components; a quarter of the safe archives get one bit flipped in an entry's data or declared CRC (extraction must fail or have written only original content); symlink-typed entries also occur in the safe pool (regular file with the link text, or a symbolic link with that target, are both accepted); extracted with ZipArchive::extract and ZipStreamReader::extract into a 12-level nested sandbox under /var/tmp. Oracle: recursive snapshot (type, mode, content hash) of everything outside the target is unchanged; an archive with an unsafe name (C06 string model) returns Err; an all-safe archive returns Ok and the tree equals the model exactly (implied parents, contents, mode & 0o777 for every entry that records one). Non-trivial = has a hostile name, or >=3 safe entries with nesting.");
     ctx.assume("hostile names use only zv_-prefixed components, at most 8 '..' (cannot leave the 12-level nest) and absolute paths only under the run's own canary directory, so even a tree with broken sanitisation cannot touch anything real");
     ctx.assume("symlink-typed entries are extracted as regular files (what the code does; it cannot escape)");
     let n = ctx.q(8000, 60000);
@@ -358,7 +431,8 @@ pub fn run(ctx: &mut Ctx) {
             let canary = canary.clone();
             let shuf = || prop_oneof![2 => Just(None), 1 => any::<u64>().prop_map(Some)];
             let rel = || prop_oneof![3 => Just(false), 1 => Just(true)];
-            let safe = (safe_case(), any::<bool>(), shuf(), rel()).prop_map(|(entries, stream, central_shuffle, rel_target)| Case { entries, safe: true, stream, central_shuffle, rel_target });
+            let dmg = || prop_oneof![3 => Just(None), 1 => (any::<u16>(), any::<u32>(), any::<bool>()).prop_map(Some)];
+            let safe = (safe_case(), any::<bool>(), shuf(), rel(), dmg()).prop_map(|(entries, stream, central_shuffle, rel_target, damage)| Case { entries, safe: true, stream, central_shuffle, rel_target, damage });
             let hostile = (safe_case(), proptest::collection::vec((hostile_name(canary), any::<bool>(), any::<bool>(), 0u32..512, crate::refzip::content::content(300)), 1..4), any::<u16>(), any::<bool>(), shuf(), rel()).prop_map(|(mut entries, hs, at, stream, central_shuffle, rel_target)| {
                 for (i, (name, dir, sym, mode, content)) in hs.into_iter().enumerate() {
                     let pos = ((at as usize + i * 7919) * (entries.len() + 1)) >> 16;
@@ -369,7 +443,7 @@ pub fn run(ctx: &mut Ctx) {
                     let e = entries[0].clone();
                     entries.push(Ent { dir: !e.dir, ..e });
                 }
-                Case { entries, safe: false, stream, central_shuffle, rel_target }
+                Case { entries, safe: false, stream, central_shuffle, rel_target, damage: None }
             });
             prop_oneof![1 => safe, 1 => hostile].boxed()
         },
